@@ -10,7 +10,9 @@ import Honeycomb.Model.Session3
 import Honeycomb.Model.SessionScene
 import Honeycomb.Model.SessionGeo
 import Honeycomb.Model.SessionKernels
+import Honeycomb.Model.SessionRemesh
 import Honeycomb.Model.SessionVtk
+import Honeycomb.Model.SessionCapture
 
 namespace HC
 
@@ -22,8 +24,8 @@ def firstSome {α β γ : Type} (fs : List (α → β → Option γ)) (a : α) (
     | none => firstSome rest a b
 
 def allHooks : Hooks where
-  txOp := firstSome [txOp3, txOpK]
-  top := firstSome [topScene, topGeo, top3, topGrid, topIO, topVtk]
+  txOp := firstSome [txOp3, txOpK, txOpR]
+  top := firstSome [topCapture, topScene, topGeo, top3, topGrid, topIO, topVtk, topR]
 
 def stepAll (s : Sess) (line : String) : Sess × String := step allHooks s line
 
